@@ -69,7 +69,8 @@ def _run(events):
     clock = [1000.0]
     real_time = xm.time
     xm.time = lambda: clock[0]
-    tasks = [_Task('foo', 1, ['x1', 'x2']), _Task('bar', 1, ['x1b']), _Task('foo', 2, ['x1'])]
+    # (x2 is templated by the task name: foo and bar wait on DIFFERENT signatures under the same label)
+    tasks = [_Task('foo', 1, ['x1', 'x2']), _Task('bar', 1, ['x1b', 'x2']), _Task('foo', 2, ['x1'])]
     calls = {}            # sig -> [call times]
     in_progress = {}      # sig -> count
     succeeded = set()
@@ -105,15 +106,30 @@ def _run(events):
                     continue
                 ctx, cb = todo[0]
                 ctx._finished = True
-                ctx.ret_code = 0
-                ctx.out = json.dumps([bool(ev[1]), {'k': 'v'}])
+                if ev[1] == 'error':
+                    # the function raised / printed something that is not a result
+                    ctx.ret_code = 1
+                    ctx.out = 'Traceback (most recent call last): boom'
+                else:
+                    ctx.ret_code = 0
+                    ctx.out = json.dumps([bool(ev[1]), {'k': 'v'}])
                 cb(ctx)
                 sig = ctx.get_signature()
                 in_progress[sig] -= 1
-                if ev[1]:
+                if ev[1] is True:
                     succeeded.add(sig)
             elif ev[0] == 'house':
+                # a succeeded signature that some pooled task still waits on (label not yet marked satisfied)
+                # must survive housekeeping: "not called again once it has succeeded while any task needs it"
+                needed = set()
+                for t in tasks:
+                    for label, sat in t.state.xtriggers.items():
+                        if not sat:
+                            needed.add(mgr.get_xtrig_ctx(t, label).get_signature())
                 mgr.housekeep(tasks)
+                for sig in sorted(succeeded & needed):
+                    if sig not in mgr.sat_xtrig:
+                        problems.append(f'{sig}: succeeded, still needed by a task, forgotten by housekeeping')
                 succeeded = {s for s in succeeded if s in mgr.sat_xtrig}
     finally:
         xm.time = real_time
@@ -122,7 +138,7 @@ def _run(events):
 
 def check(tier='quick', seed=0):
     alphabet = [('call', 0), ('call', 1), ('call', 2), ('tick', 4.0), ('tick', 11.0), ('done', True),
-                ('done', False), ('house',)]
+                ('done', False), ('done', 'error'), ('house',)]
     nmax = 5 if tier == 'quick' else 6
     n_eval, bad, samples, distinct = 0, [], [], set()
     for n in range(1, nmax + 1):
@@ -140,7 +156,9 @@ def check(tier='quick', seed=0):
             'while needed, dependants satisfied')
     rule = (f'every sequence of <= {nmax} events starting with a call, over: call_xtriggers_async for one of 3 tasks '
             '(two labels sharing a signature, one task-specific), clock +4 s / +11 s (interval 10 s), completion of '
-            'the oldest call in progress (success / not), housekeeping; distinct = distinct call-count profiles')
+            'the oldest call in progress (success / not satisfied / error), housekeeping (which must keep every '
+            'succeeded signature a pooled task still waits on; one label is templated by the task name and shared '
+            'by two tasks); distinct = distinct call-count profiles')
     base = dict(name=name, kind='bounded', evaluations=n_eval, distinct=len(distinct), rule=rule, samples=samples,
                 exhaustive=True)
     if bad:
